@@ -56,8 +56,13 @@ pub fn is_value_name(t: &str) -> bool {
 /// Compare two IR texts: identical token by token, except that value names may differ by a
 /// renaming that is a bijection *within each function* (names are function-local).
 pub fn equal_up_to_value_renaming(a: &str, b: &str) -> Result<(), String> {
-    let ta = tokens(a);
-    let tb = tokens(b);
+    equal_up_to(a, b, &[])
+}
+
+/// Like `equal_up_to_value_renaming`, additionally ignoring every token listed in `ignore`.
+pub fn equal_up_to(a: &str, b: &str, ignore: &[&str]) -> Result<(), String> {
+    let ta: Vec<&str> = tokens(a).into_iter().filter(|t| !ignore.contains(t)).collect();
+    let tb: Vec<&str> = tokens(b).into_iter().filter(|t| !ignore.contains(t)).collect();
     let mut fwd = std::collections::HashMap::new();
     let mut bwd = std::collections::HashMap::new();
     let n = ta.len().min(tb.len());
@@ -91,11 +96,20 @@ pub fn equal_up_to_value_renaming(a: &str, b: &str) -> Result<(), String> {
 }
 
 /// print → parse → (verify, done by `parse`) → print; texts must agree. Returns the re-parsed IR.
-pub fn roundtrip<'eng>(ir: &Context<'eng>) -> Result<Context<'eng>, String> {
+pub fn roundtrip<'eng>(ir: &Context<'eng>) -> Result<(Context<'eng>, Vec<String>), String> {
     let s = ir.to_string();
     let ir2 = sway_ir::parser::parse(&s, ir.source_engine(), ir.experimental, ir.backtrace)
         .map_err(|e| format!("re-parse/verify failed: {e}"))?;
     let s2 = ir2.to_string();
-    equal_up_to_value_renaming(&s, &s2).map_err(|e| format!("second print differs: {e}"))?;
-    Ok(ir2)
+    let mut notes = vec![];
+    if let Err(first) = equal_up_to_value_renaming(&s, &s2) {
+        // One asymmetry is classified separately so that it cannot mask other differences: the
+        // parser marks every `entry fn` as original entry, so `entry fn t()` comes back as
+        // `entry entry_orig fn t()`. Compare again with that token dropped on both sides.
+        match equal_up_to(&s, &s2, &["entry_orig"]) {
+            Ok(()) => notes.push(format!("entry_orig-asymmetry: {first}")),
+            Err(e) => return Err(format!("second print differs: {e}")),
+        }
+    }
+    Ok((ir2, notes))
 }
